@@ -176,6 +176,8 @@ def check_wrappers(prog, rep):
         any(isinstance(s, ast.Assign) and unparse(s.value) == 'self.orig_operator.matvec(vec)'
             for s in f.body)
     if ok:
+        ok = all('self.ortho_vecs' in unparse(l.iter) for l in loops)
+    if ok:
         i_mv = [i for i, s in enumerate(f.body) if isinstance(s, ast.Assign) and
                 unparse(s.value) == 'self.orig_operator.matvec(vec)'][0]
         ok = f.body.index(loops[0]) < i_mv < f.body.index(loops[1])
